@@ -18,7 +18,7 @@ def harnesses(tier):
         hs.append(dict(name='c06_' + op, src='c06/wrap.c', defs=dict(OP=i, N=N, DS_CAP=12),
                        units=[dict(src='repo:mmd.c', remove=RM, cflags=FILEDEFS), 'repo:token.c', 'repo:token_pairs.c', 'repo:stack.c', 'repo:object_pool.c', 'repo:char.c', 'common/ds_model.c'],
                        unwind=14, unwindset=['token_pair_engine_new.0:4'], object_bits=10, timeout=1500, mem_gb=10,
-                       native_whole_lib=True,
+                       native_whole_lib=True, slice=True,
                        bounds='source <= %d bytes x 2^17 extension sets x 13 formats x 7 languages' % N,
                        desc='%s: C-string, DString and engine variants hand the engine the same tuple and return its result' % op))
     return hs
